@@ -83,7 +83,7 @@ func c14Hook(gcEvery int, requests *int64) bexpr.ValueTransformationHookFn {
 }
 
 func c14HookBuilt(c *mon.Ctx, r *rand.Rand) {
-	nItems := []int{12, 24, 40, 64}[r.Intn(4)]
+	nItems := []int{12, 24, 40}[r.Intn(3)]
 	nLabels := 2 + r.Intn(3)
 	doc := c14Doc{ByName: map[string]c14Item{}, Name: "n"}
 	// every item: labels with its own names (so that keys of one item are
@@ -133,7 +133,7 @@ func c14HookBuilt(c *mon.Ctx, r *rand.Rand) {
 	counts := map[string]int{}
 	perLeg := map[string]string{}
 	var requests int64
-	for _, leg := range []struct{ gcEvery, reps int }{{0, 12}, {1, 2}, {3, 3}, {7, 4}, {0, 6}} {
+	for _, leg := range []struct{ gcEvery, reps int }{{0, 12}, {1, 1}, {3, 2}, {7, 3}, {0, 4}} {
 		ev, err, pan, _ := createEval(text, bexpr.WithHookFn(c14Hook(leg.gcEvery, &requests)))
 		if pan != "" || err != nil {
 			c.Count("unparsed")
@@ -160,4 +160,98 @@ func c14HookBuilt(c *mon.Ctx, r *rand.Rand) {
 	c.Count("hook_built_collection_scenarios")
 	c.Count("hook_built_outcome:" + keysOf(counts)[0])
 	c.Distinct(fmt.Sprintf("hook-built|%s|%d|%d|%d", text, nItems, nLabels, errAt))
+}
+
+// Maps keyed by anything but plain strings (integers of every width, named
+// string types, bools, floats, small structs, arrays), in structs and in
+// generic documents, with element outcomes that mix true / false / error:
+// whatever the evaluation does with them - refuse them or range over them - it
+// has to do the same on every call.
+type c14NamedKey string
+type c14PairKey struct{ A, B int }
+
+type c14OddDoc struct {
+	IntM   map[int]interface{}
+	I8M    map[int8]interface{}
+	U16M   map[uint16]interface{}
+	NamedM map[c14NamedKey]interface{}
+	BoolM  map[bool]interface{}
+	F64M   map[float64]interface{}
+	PairM  map[c14PairKey]interface{}
+	ArrM   map[[2]int]interface{}
+	TypedI map[int]int
+	TypedN map[c14NamedKey]string
+	Name   string
+}
+
+func c14OddKeys(c *mon.Ctx, r *rand.Rand) {
+	n := 2 + r.Intn(7)
+	vals := make([]interface{}, n)
+	for i := range vals {
+		switch r.Intn(5) {
+		case 0:
+			vals[i] = 1 // decisive for v == 1
+		case 1:
+			vals[i] = 2 + r.Intn(3)
+		case 2:
+			vals[i] = []interface{}{1} // `v == 1` errors
+		case 3:
+			vals[i] = struct{ X int }{i}
+		default:
+			vals[i] = "s"
+		}
+	}
+	vals[r.Intn(n)] = 1
+	vals[r.Intn(n)] = struct{ X int }{1}
+	doc := c14OddDoc{IntM: map[int]interface{}{}, I8M: map[int8]interface{}{}, U16M: map[uint16]interface{}{}, NamedM: map[c14NamedKey]interface{}{}, BoolM: map[bool]interface{}{},
+		F64M: map[float64]interface{}{}, PairM: map[c14PairKey]interface{}{}, ArrM: map[[2]int]interface{}{}, TypedI: map[int]int{}, TypedN: map[c14NamedKey]string{}, Name: "n"}
+	for i, v := range vals {
+		doc.IntM[i+1] = v
+		doc.I8M[int8(i-3)] = v
+		doc.U16M[uint16(i*257)] = v
+		doc.NamedM[c14NamedKey(fmt.Sprintf("k%d", i))] = v
+		doc.BoolM[i%2 == 0] = v
+		doc.F64M[float64(i)+0.5] = v
+		doc.PairM[c14PairKey{i, -i}] = v
+		doc.ArrM[[2]int{i, i}] = v
+		doc.TypedI[i] = i % 3
+		doc.TypedN[c14NamedKey(fmt.Sprintf("k%d", i))] = []string{"hit", "miss", "x"}[i%3]
+	}
+	fields := []string{"IntM", "I8M", "U16M", "NamedM", "BoolM", "F64M", "PairM", "ArrM"}
+	f := fields[r.Intn(len(fields))]
+	texts := []string{
+		`any ` + f + ` as k, v { v == 1 }`, `all ` + f + ` as k, v { v != 1 }`, `any ` + f + ` as _, v { v == 1 or v == 2 }`, `all ` + f + ` as k { k != "k1" }`,
+		`any ` + f + ` as k, v { v.X == 1 }`, `not (any ` + f + ` as k, v { v == 1 }) or Name == "zz"`, `all ` + f + ` as _, v { v is not empty }`,
+		`any TypedI as k, v { v == 1 or v.x == 1 }`, `all TypedI as k, v { v == 0 and v.x == 1 }`, `any TypedN as k, v { v == "hit" or v.x == 1 }`, `all TypedN as k, v { v == "miss" and v.x == 1 }`,
+		`any TypedN as k { k == "k2" or TypedN.zz.y == 1 }`,
+	}
+	text := texts[r.Intn(len(texts))]
+	ev, err, pan, _ := createEval(text)
+	if pan != "" || err != nil {
+		c.Count("unparsed")
+		c.Note("unparsed", clip(text, 100))
+		return
+	}
+	// the same logical document as a struct, behind a pointer and as a generic
+	// map of the same typed maps; every variant separately must be constant
+	generic := map[string]interface{}{"IntM": doc.IntM, "I8M": doc.I8M, "U16M": doc.U16M, "NamedM": doc.NamedM, "BoolM": doc.BoolM, "F64M": doc.F64M, "PairM": doc.PairM, "ArrM": doc.ArrM, "TypedI": doc.TypedI, "TypedN": doc.TypedN, "Name": doc.Name}
+	for vi, d := range []interface{}{doc, &doc, generic} {
+		counts := map[string]int{}
+		for i := 0; i < 70; i++ {
+			use := ev
+			if i%5 == 4 {
+				use, _, _, _ = createEval(text)
+			}
+			counts[evaluate(use, d).Class()]++
+			c.Evals(1)
+		}
+		if len(counts) > 1 {
+			c.Violation(fmt.Sprintf("C14 nondeterministic %v non-string-keyed-map", keysOf(counts)), "repeating the same call on a map that is not keyed by plain strings gave different outcomes",
+				map[string]any{"expression": text, "entries": n, "variant": []string{"struct", "pointer to struct", "generic document"}[vi], "outcome_counts": counts})
+			return
+		}
+		c.Count("non_string_keyed_outcome:" + keysOf(counts)[0])
+	}
+	c.Count("non_string_keyed_map_scenarios")
+	c.Distinct(fmt.Sprintf("odd-keys|%s|%d|%v", text, n, vals))
 }
